@@ -2,6 +2,8 @@ package props
 
 import (
 	"bytes"
+	"crypto/md5"
+	"encoding/base64"
 	"fmt"
 	"io"
 	"strconv"
@@ -546,6 +548,31 @@ func runC12(c *engine.Ctx) {
 				report("completed-object", fmt.Sprintf("complete answered %s, GET %d with %d bytes (want the %d payload bytes)", cr.Short(), v.Status, len(v.Body), pc.n))
 			}
 		})
+	}
+	// ---- a well-formed stream after a broken one: nothing of the broken request's decoding
+	// (position inside a chunk, digest state) may reach a later request ----
+	for _, k := range kinds {
+		w := newW(k)
+		payload := mkPayload(40)
+		enc := drv.EncodeChunked(payload, []int{25, 15})
+		cut := bytes.Index(enc, payload[:25]) + 10 // inside the first chunk's data
+		for round := 0; round < 4; round++ {
+			f := drv.NewFrag(enc[:cut], nil, 0, false)
+			f.FailAt, f.Err = cut, io.ErrUnexpectedEOF
+			f.Data = append(append([]byte{}, enc[:cut]...), 0)
+			rb := w.Do(drv.Req{Method: "PUT", Path: "/aaa/broken", BodyReader: f, DeclLen: ptr64(int64(len(enc))), Header: streamHdr(len(payload))})
+			sum := md5.Sum(payload)
+			rg := w.Do(drv.Req{Method: "PUT", Path: "/aaa/good", Body: enc, Header: append(streamHdr(len(payload)), [2]string{"Content-MD5", base64.StdEncoding.EncodeToString(sum[:])})})
+			v := w.Get("aaa", "good")
+			c.Add(0, 3, 1, 3)
+			if rb.Status < 400 || rg.Status != 200 || v.Status != 200 || !bytes.Equal(v.Body, payload) || v.ETag != drv.ETagOf(payload) {
+				c.Report(&engine.Violation{Sig: sig("C12", "any", "stream-after-broken-stream"), World: string(k), History: []string{"PUT cut inside a chunk", "PUT well-formed stream", "GET"},
+					Msg: fmt.Sprintf("on %s (round %d): a stream cut inside a chunk answered %s; the well-formed stream sent next answered %s and GET then gives %d, %d bytes, ETag %s (want 200, 200 with the 40 payload bytes)", k, round, rb.Short(), rg.Short(), v.Status, len(v.Body), v.ETag)})
+				break
+			}
+			w.Do(drv.Req{Method: "DELETE", Path: "/aaa/good"})
+		}
+		w.Close()
 	}
 	// ---- how the declared decoded length is written ----
 	// A declaration made of decimal digits means that decimal number (leading zeros or not):
